@@ -374,6 +374,13 @@ func jwsMutations() []jwsMut {
 		setMember(b, "a.esc", `"é😀\n\"q\""`)
 		addCrit(b, "a.num", "a.obj")
 	})
+	// names that mean something elsewhere — the envelope's own unprotected headers, registered JOSE parameters — are ordinary
+	// extended attributes inside the protected header
+	for _, n := range reservedLookingNames {
+		n := n
+		add("ext:reserved-looking-name:"+n, func(b *jwsBuild, c *jwsCtx) { setMember(b, n, `"signed value of `+n+`"`) })
+		add("ext:reserved-looking-name-crit:"+n, func(b *jwsBuild, c *jwsCtx) { setMember(b, n, `"signed value of `+n+`"`); addCrit(b, n) })
+	}
 	add("ext:null-value", func(b *jwsBuild, c *jwsCtx) { setMember(b, "a.null", "null") })
 	add("ext:null-value-crit", func(b *jwsBuild, c *jwsCtx) { setMember(b, "a.null", "null"); addCrit(b, "a.null") })
 	add("ext:dup-key", func(b *jwsBuild, c *jwsCtx) {
@@ -556,6 +563,15 @@ func jwsMutations() []jwsMut {
 		b.X5cRaw = append([][]byte{c.other.chain[0].Raw}, ders(c.id.chain[1:])...)
 	})
 	add("x5c:other-identity-chain", func(b *jwsBuild, c *jwsCtx) { b.X5cRaw = ders(c.other.chain) })
+	// a correctly signed envelope whose chain has one defect of the C03 catalogue (or one of its harmless oddities), at the leaf
+	// and at the issuer: "a certificate chain that passes code-signing chain validation" is a clause of what is returned
+	for _, dm := range defectiveChainMutations() {
+		dm := dm
+		add("chain:"+dm.name, func(b *jwsBuild, c *jwsCtx) {
+			chain, key := defectiveIdentity(dm.mut, dm.pos, dm.n)
+			b.Chain, b.X5cRaw, b.SignKey = chain, nil, key
+		})
+	}
 	add("x5c:reversed", func(b *jwsBuild, c *jwsCtx) {
 		x := ders(c.id.chain)
 		for i, j := 0, len(x)-1; i < j; i, j = i+1, j-1 {
@@ -930,12 +946,17 @@ func genJwsRead(r *Runner, prop string) {
 		}
 	}
 	// pairs
+	reps := familyRepresentatives(func(i int) string { return muts[i].name }, len(muts))
 	for i, a := range muts {
 		for jx, b := range muts {
 			if i >= jx {
 				continue
 			}
-			// every pair, in every tier
+			// every pair, in every tier — except that the members of a large family of like deviations (one per name, per
+			// spelling, per offset) pair through the family's first member; the others pair with one deviation in eight (quick)
+			if !keepPair(a.name, b.name, reps, quick, i+jx) {
+				continue
+			}
 			s := schemes[rng.Intn(2)]
 			jobs = append(jobs, jwsJob{label: "pair", keyID: "ec256-0", n: 2, scheme: s, muts: []jwsMut{a, b}, ext: rng.Intn(3), expiry: rng.Intn(3) == 0})
 		}
@@ -1042,4 +1063,100 @@ func foldTwins(name string) []string {
 		}
 	}
 	return out
+}
+
+// reservedLookingNames: header names that are defined for *another place* (the unprotected header of the Notary JWS envelope,
+// the JOSE / COSE registries) — inside the protected header none of them is a specification header of the envelope
+var reservedLookingNames = []string{"x5c", "io.cncf.notary.signingAgent", "io.cncf.notary.timestampSignature", "kid", "jwk", "jku", "x5u", "x5t", "x5t#S256", "typ", "b64",
+	"enc", "zip", "io.cncf.notary.verificationPlugin", "x5chain", "signature", "payload", "protected", "header"}
+
+// mutation families: many deviations of one kind (one per name / spelling / offset / payload)
+var mutFamilies = []string{"ext:reserved-looking-name:", "ext:reserved-looking-name-crit:", "ext:fold-twin-valid:", "ext:fold-twin:", "expiry:equal-", "expiry:earlier-1s-",
+	"expiry:later-1s-", "payload:claim-names-", "ext:reserved-looking-text-label:", "ext:reserved-looking-text-label-crit:", "ext:registered-int-label:",
+	"ext:text-label-spelling-int-", "ext-reserved-looking-name:", "ext-spec-key-twin:", "payload-claim-names-", "st-zone:", "payload-trailing-", "ext-spec-key:",
+	"ext-spec-int:", "ext-int-key:", "st-bound-zone:", "chain:"}
+
+func familyOf(name string) string {
+	for _, f := range mutFamilies {
+		if strings.HasPrefix(name, f) {
+			return f
+		}
+	}
+	return ""
+}
+
+// familyRepresentatives: the first member of each family
+func familyRepresentatives(nameOf func(int) string, n int) map[string]string {
+	reps := map[string]string{}
+	for i := 0; i < n; i++ {
+		if f := familyOf(nameOf(i)); f != "" {
+			if _, ok := reps[f]; !ok {
+				reps[f] = nameOf(i)
+			}
+		}
+	}
+	return reps
+}
+
+func keepPair(a, b string, reps map[string]string, quick bool, salt int) bool {
+	fa, fb := familyOf(a), familyOf(b)
+	ra, rb := fa == "" || reps[fa] == a, fb == "" || reps[fb] == b
+	switch {
+	case ra && rb:
+		return true
+	case !ra && !rb:
+		return false
+	default:
+		return !quick || salt%8 == 0
+	}
+}
+
+type defectiveChainMut struct {
+	name   string
+	mut    string
+	pos, n int
+}
+
+// defectiveChainMutations: every deviation of the code-signing catalogue that leaves the leaf key alone, at the leaf of a chain
+// of two and at the issuer / intermediate of a chain of three
+func defectiveChainMutations() []defectiveChainMut {
+	var out []defectiveChainMut
+	for _, m := range chainMutations("cs") {
+		if strings.HasPrefix(m.name, "leaf-key-") {
+			continue
+		}
+		for _, pn := range [][2]int{{0, 2}, {1, 3}, {1, 2}} {
+			if applies(m, pn[0], pn[1]) {
+				out = append(out, defectiveChainMut{fmt.Sprintf("%s@%d-of-%d", m.name, pn[0], pn[1]), m.name, pn[0], pn[1]})
+			}
+		}
+	}
+	return out
+}
+
+var (
+	defIDMu  sync.Mutex
+	defIDs   = map[string][]*x509.Certificate{}
+	defIDKey = map[string]*Key{}
+)
+
+func defectiveIdentity(mut string, pos, n int) ([]*x509.Certificate, *Key) {
+	k := fmt.Sprintf("%s@%d/%d", mut, pos, n)
+	defIDMu.Lock()
+	defer defIDMu.Unlock()
+	if c, ok := defIDs[k]; ok {
+		return c, defIDKey[k]
+	}
+	specs := validSpecs(n, "cs", "ec256-0", func(i int) string { return fmt.Sprintf("ec256-%d", 10+i) })
+	for _, m := range chainMutations("cs") {
+		if m.name == mut {
+			m.fn(specs, pos)
+		}
+	}
+	chain, iss, err := buildChain(specs)
+	if err != nil {
+		panic(err)
+	}
+	defIDs[k], defIDKey[k] = chain, iss[0].Key
+	return chain, iss[0].Key
 }
